@@ -84,9 +84,19 @@ def child_case(st, case):
         ffi = FFI()
         text = '\n'.join(G.render_decl_c(a) for a in c['decls'])
         ok = True
+        hist = c['id'] % 3      # 0: plain; 1: forward-declared; 2: forward-declared and used
         for a in c['decls']:
             t, kw = G.render_decl_cffi(a)
             try:
+                if hist:
+                    # multi-step history: the aggregate is first only mentioned
+                    # (and possibly used as an opaque type), completed later
+                    tag = '%s %s' % (a['kind'], a['name'])
+                    ffi.cdef(tag + ';')
+                    if hist == 2:
+                        ffi.typeof(tag + ' *')
+                        ffi.new(tag + ' **')
+                    rep.stat('completed_after_forward_declaration')
                 ffi.cdef(t, **kw)
             except Exception as e:
                 rep.bad('declaration-rejected', 'cdef rejected %r (%s): %s: %s' %
